@@ -3,7 +3,7 @@ import random
 from pipefam import *
 
 GEN = 'C13'
-MODEL_FN = 'Model/SFlow.v caps (dec_sample, decode_sf), Model/NF.v dec_data_set -- ghost slot counts'
+MODEL_FN = 'Spec/Ghost.v gh_pipe (ghost allocation estimate along the decoders path) ; Model/SFlow.v caps (dec_sample, decode_sf), Model/NF.v dec_data_set -- ghost slot counts'
 RULE = ('count sweep: structured datagrams of every protocol (sFlow with all sample kinds and gateway records, NetFlow v5, '
         'v9, IPFIX with templates of 1..40 fields incl. variable-length) in which EVERY aligned 16-bit and 32-bit word '
         '(record count, sample count, field count, AS-path length, communities length, string length, set length, '
@@ -11,6 +11,7 @@ RULE = ('count sweep: structured datagrams of every protocol (sFlow with all sam
         'in a child process with a 12 GiB address-space limit; property (implementation alone): the process survives and '
         'runtime.MemStats.TotalAlloc grows by at most 16 MiB + 256 x length x (1 + W) per datagram, W = widest template seen; '
         'amplification: one small hostile unit (template record claiming 65535 fields, maximal options lengths, empty / unknown data set, sFlow sample with 2^32-1 records) repeated up to 1100 times in one datagram, same budget; '
+        'ghost tie: measured TotalAlloc <= gh_pipe estimate of the model + 1 MiB for the 300 largest allocations, a random sample of the sweep and every amplification datagram (c02_budget bounds the estimate by the budget for every state and byte string); '
         'fidelity: error class and messages == model for the same inputs. non-trivial = the mutated datagram still decodes '
         'far enough to allocate (more than 4 KiB); distinct by input')
 TRUSTED = ['Coq 8.16.1 kernel (coqc)', 'extraction + ocaml/main.ml glue', 'Go harness harness/alloc.go (runtime.ReadMemStats around DecodeFlow), bin/engine.py',
@@ -78,12 +79,14 @@ def run(chk):
     chk.count('header sweep', len(head))
     cands = head + body
     worst = (0, '')
+    measured = []            # (allocated, index into cands) of every swept datagram that was measured
+    SLACK = 2 ** 20          # Spec/Ghost.v:SLACK
     # in batches: a line carries its whole history, so only one batch of lines is alive at a time
     for b0 in range(0, len(cands), 20000):
         lines = [materialise(*c) for c in cands[b0:b0 + 20000]]
         impl = impl_run(chk.harness, lines, timeout=120.0)
         chk.evals += len(lines)
-        for a, o in zip(lines, impl):
+        for li, (a, o) in enumerate(zip(lines, impl)):
             if o in ('hang', 'crash', 'panic'):
                 chk.record('scopeA', dict(concrete=True, input=a[:30000], impl=o,
                            what='the process did not survive a datagram with a hostile count/length field'), {})
@@ -97,6 +100,7 @@ def run(chk):
             except Exception:
                 continue
             budget = 16 * 2 ** 20 + 256 * ln * (1 + w)
+            measured.append((delta, b0 + li))
             if delta > 4096:
                 chk.nontrivial.add(hashlib.sha1(a.encode()).digest()[:8])
             if delta > worst[0]:
@@ -131,6 +135,20 @@ def run(chk):
                 else:
                     d = u16(10) + u16(16 + len(sets)) + u32(1700000000) + u32(1) + u32(7) + sets
                 rep.append('alloc flow none =0a000001 #7d0 #1 =' + d.hex())
+    # many DISTINCT templates: a datagram full of minimal template records with different ids, sent to an empty store and
+    # again (a plain refresh) after histories that left 1000 / 4000 templates with the exporter -- what a template record
+    # costs must not depend on how many templates are already stored
+    for ver, tsid in ((9, 0), (10, 2)):
+        def tdgram(lo, n):
+            recs = b''.join(u16(lo + i) + u16(1) + u16(1 + i % 20) + u16(4) for i in range(n))
+            st = u16(tsid) + u16(4 + len(recs)) + recs
+            if ver == 9:
+                return u16(9) + u16(1) + u32(1000) + u32(1700000000) + u32(1) + u32(7) + st
+            return u16(10) + u16(16 + len(st)) + u32(1700000000) + u32(1) + u32(7) + st
+        for stored in (0, 1000, 4000):
+            hist = ['=0a000001 #7d0 #1 =' + tdgram(256 + k, min(1100, stored - k)).hex() for k in range(0, stored, 1100)]
+            for n in (50, 1100):
+                rep.append('alloc flow none ' + ' '.join(hist + ['=0a000001 #7d0 #1 =' + tdgram(256, n).hex()]))
     # sFlow: flow samples / expanded flow samples announcing 2^32-1 records, repeated
     for fmt, hdr in ((1, 32), (3, 44)):
         sample = u32(fmt) + u32(hdr) + bytes(hdr - 4) + u32(2 ** 32 - 1)
@@ -159,6 +177,78 @@ def run(chk):
             chk.record('scopeA', dict(concrete=True, input=a[:30000], impl=o[-200:], allocated=delta,
                        budget=16 * 2 ** 20 + 256 * ln * (1 + w),
                        what='a datagram made of one hostile unit repeated allocated more than 16 MiB + 256 x length x (1 + W)'), {})
+    # ---- the ghost estimate of Spec/Ghost.v (the quantity c02_budget is about) against what was measured: for the
+    # datagrams that allocated most, a random sample of the sweep and every amplification datagram, the model computes
+    # gh_pipe for the same history and the check requires  measured <= estimate + SLACK
+    measured.sort(reverse=True)
+    top = measured[:dict(quick=300, thorough=3000)[chk.tier]]
+    rest = measured[len(top):]
+    pick = top + rng.sample(rest, min(len(rest), dict(quick=1200, thorough=17000)[chk.tier]))
+    gl = [materialise(*cands[i]) for _, i in pick] + rep
+    gm = [d for d, _ in pick]
+    for a, o in zip(rep, irep):
+        steps = split_steps(o) if o not in ('hang', 'crash', 'panic') else []
+        try:
+            gm.append(int(steps[-1].split(' ')[0][1:], 16))
+        except Exception:
+            gm.append(None)
+    go = model_run('C02', gl)
+    chk.evals += len(gl)
+    chk.count('ghost estimate compared with measured allocation', len(gl))
+    under = []
+    closest = None
+    for a, delta, o in zip(gl, gm, go):
+        steps = split_steps(o)
+        try:
+            est, ln, w = (int(x[1:], 16) for x in steps[-1].split(' ')[:3])
+        except Exception:
+            if delta is not None:
+                under.append((a, delta, None, o[-200:]))
+            continue
+        if delta is None:
+            continue
+        if est + SLACK > 16 * 2 ** 20 + 256 * ln * (1 + w) and ln <= 9000:
+            chk.record('theorem', dict(concrete=False, input=a[:30000], estimate=est, length=ln, width=w,
+                       what='the extracted estimate leaves the budget c02_budget proves for it (extraction or driver unfaithful)'), {})
+        if delta > est + SLACK:
+            under.append((a, delta, est, o[-200:]))
+        if closest is None or est - delta < closest[0]:
+            closest = (est - delta, delta, est)
+    if closest:
+        chk.notes.append('ghost estimate: smallest margin estimate - measured = %d bytes (measured %d, estimate %d)' % closest)
+    if under:
+        # the tie is broken: the estimate no longer dominates what the implementation allocates, so c02_budget says
+        # nothing about it any more. Search for a datagram that leaves the property's budget: the under-estimated
+        # histories with their last datagram sent 2..64 times over (what grows with the state grows further) ...
+        found = False
+        probe = []
+        for a, delta, est, _ in under[:8]:
+            f = a.split(' ')
+            for n in (2, 8, 64):
+                probe.append(' '.join(f[:3] + f[3:] * n))
+        ip = impl_run(chk.harness, probe, timeout=240.0)
+        chk.evals += len(probe)
+        for a, o in zip(probe, ip):
+            for stp in split_steps(o) if o not in ('hang', 'crash', 'panic') else []:
+                try:
+                    delta, ln, w = (int(x[1:], 16) for x in stp.split(' ')[:3])
+                except Exception:
+                    continue
+                if delta > 16 * 2 ** 20 + 256 * ln * (1 + w):
+                    chk.record('scopeA-search', dict(concrete=True, input=a[:30000], allocated=delta,
+                               budget=16 * 2 ** 20 + 256 * ln * (1 + w),
+                               what='found after the ghost estimate stopped dominating the measured allocation: a datagram of this '
+                                    'history allocates more than 16 MiB + 256 x length x (1 + W)'), {})
+                    found = True
+                    break
+            if found:
+                break
+        if not found:
+            a, delta, est, o = under[0]
+            chk.violations.append(dict(kind='correspondence', concrete=False, input=a[:30000], allocated=delta, estimate=est,
+                                       model=o, cases=len(under),
+                                       what='Spec/Ghost.v:gh_pipe (the estimate c02_budget bounds) no longer dominates the allocation measured '
+                                            'for this datagram: measured > estimate + SLACK; no datagram above the budget was found'))
     chk.count('count-field sweep', len(body))
     chk.notes.append('largest allocation observed for one datagram: %d bytes' % worst[0])
     chk.samples.append(dict(stream='sweep', worst_allocation=worst[0], input=worst[1][-600:]))
